@@ -440,7 +440,7 @@ fn strategy() -> BoxedStrategy<BatchCase> {
                 0u32..12,
                 15u32..90,
             )
-                .prop_map(|(role, p, nth, max_hold_ms)| Directive { role, point: p.to_string(), nth, max_hold_ms, linger_ms: 0 });
+                .prop_map(|(role, p, nth, max_hold_ms)| Directive { role, point: p.to_string(), nth, max_hold_ms, linger_ms: 0, every: 0 });
             // a reader parked inside a get (after it captured its view) while flushes, compactions
             // and obsolete-file deletion go on: its snapshot read must still be served
             let rdir = (
@@ -449,7 +449,7 @@ fn strategy() -> BoxedStrategy<BatchCase> {
                 0u32..40,
                 10u32..50,
             )
-                .prop_map(|(role, p, nth, max_hold_ms)| Directive { role, point: p.to_string(), nth, max_hold_ms, linger_ms: 0 });
+                .prop_map(|(role, p, nth, max_hold_ms)| Directive { role, point: p.to_string(), nth, max_hold_ms, linger_ms: 0, every: 0 });
             let dirs = (prop::collection::vec(dir, 1..=4), prop::collection::vec(rdir, 0..=2)).prop_map(|(mut a, b)| {
                 a.extend(b);
                 a
